@@ -344,6 +344,9 @@ func ssoAdversarial(r *core.Run, prop string) {
 			}
 			return true
 		}
+		if t.Int(6, "adv.ambient") == 1 {
+			s.NeighbourNoise(enc)
+		}
 		var out world.Outcome
 		if useRetrieve {
 			ai, o := s.Node.Retrieve(enc)
